@@ -337,6 +337,7 @@ type fakeServer struct {
 	refuse    bool
 	pongLimit int  // answer this many pings per session, then stay silent
 	pongErrOn int  // answer the n-th ping (1-based) with an error Pong; 0 = never
+	mux       bool // speak yamux (server side) on every accepted connection
 	conns     []net.Conn
 }
 
@@ -354,8 +355,28 @@ func newFakeServer(addr string, port int, token string) (*fakeServer, error) {
 			}
 			f.mu.Lock()
 			f.conns = append(f.conns, c)
+			isMux := f.mux
 			f.mu.Unlock()
-			go f.handle(c)
+			if !isMux {
+				go f.handle(c)
+				continue
+			}
+			go func(c net.Conn) {
+				mc := fmux.DefaultConfig()
+				mc.LogOutput = io.Discard
+				sess, err := fmux.Server(c, mc)
+				if err != nil {
+					c.Close()
+					return
+				}
+				for {
+					st, err := sess.AcceptStream()
+					if err != nil {
+						return
+					}
+					go f.handle(st)
+				}
+			}(c)
 		}
 	}()
 	return f, nil
@@ -450,8 +471,8 @@ func tcpProxy(name, localIP string, localPort, remotePort int) v1.ProxyConfigure
 	return pc
 }
 
-func startRealClient(addr string, port int, token string, proxies []v1.ProxyConfigurer, I, T int64) (*hx.Client, error) {
-	f := false
+func startRealClient(addr string, port int, token string, proxies []v1.ProxyConfigurer, I, T int64, mux bool) (*hx.Client, error) {
+	f := mux
 	fs := &hx.Server{Addr: addr, Port: port, Cfg: &v1.ServerConfig{}}
 	fs.Cfg.Auth.Token = token
 	fs.Cfg.Transport.TCPMux = &f
@@ -474,19 +495,22 @@ func sessionSet(names []string, m map[string]int) string {
 
 // ---- scenario: real client against a scripted server that answers k pings and then stays silent;
 //      afterwards the client must log in again and re-send every NewProxy ----
-func scenSilentServer(addr string, I, T int64, answered int) scenResult {
-	res := scenResult{name: "silent_server", info: map[string]any{}}
+func scenSilentServer(name, addr string, I, T int64, answered int, mux bool) scenResult {
+	res := scenResult{name: name, info: map[string]any{}}
 	f, err := newFakeServer(addr, 0, hx.DefaultToken)
 	if err != nil {
 		res.problems = append(res.problems, err.Error())
 		return res
 	}
 	defer f.close()
+	f.mu.Lock()
 	f.pongLimit = answered
+	f.mux = mux
+	f.mu.Unlock()
 	names := []string{"ss-a", "ss-b"}
 	ports := []int{hx.FreePort(addr), hx.FreePort(addr)}
 	cl, err := startRealClient(addr, f.port(), hx.DefaultToken,
-		[]v1.ProxyConfigurer{tcpProxy(names[0], addr, 9, ports[0]), tcpProxy(names[1], addr, 9, ports[1])}, I, T)
+		[]v1.ProxyConfigurer{tcpProxy(names[0], addr, 9, ports[0]), tcpProxy(names[1], addr, 9, ports[1])}, I, T, mux)
 	if err != nil {
 		res.problems = append(res.problems, err.Error())
 		return res
@@ -604,7 +628,7 @@ func scenPongError(addr string, I, T int64) scenResult {
 	defer f.close()
 	f.pongLimit = 100
 	f.pongErrOn = 2
-	cl, err := startRealClient(addr, f.port(), hx.DefaultToken, nil, I, T)
+	cl, err := startRealClient(addr, f.port(), hx.DefaultToken, nil, I, T, false)
 	if err != nil {
 		res.problems = append(res.problems, err.Error())
 		return res
@@ -675,11 +699,20 @@ func scenOutage(addr string, refusals int) scenResult {
 		return res
 	}
 	defer echo.Close()
-	names := []string{"out-a", "out-b", "out-c"}
-	rports := []int{hx.FreePort(addr), hx.FreePort(addr), hx.FreePort(addr)}
+	// configured set before the outage: a, b, c; reloaded WHILE the client is retrying to: a, b, d
+	names := []string{"out-a", "out-b", "out-c", "out-d"}
+	rports := []int{hx.FreePort(addr), hx.FreePort(addr), hx.FreePort(addr), hx.FreePort(addr)}
+	before, after := []int{0, 1, 2}, []int{0, 1, 3}
 	pcs := []v1.ProxyConfigurer{}
-	for i, n := range names {
-		pcs = append(pcs, tcpProxy(n, addr, echo.Port(), rports[i]))
+	for _, i := range before {
+		pcs = append(pcs, tcpProxy(names[i], addr, echo.Port(), rports[i]))
+	}
+	cfgOf := func(idx []int) string {
+		it := []string{}
+		for _, i := range idx {
+			it = append(it, fmt.Sprintf("(%d, %d)", i+1, rports[i]))
+		}
+		return coqList(it)
 	}
 	// stock client configuration: loginFailExit is left at its default (true); it must only concern the FIRST login
 	cl, err := s.StartClient(pcs, nil, func(cc *v1.ClientCommonConfig) {
@@ -693,27 +726,29 @@ func scenOutage(addr string, refusals int) scenResult {
 		return res
 	}
 	defer cl.Close()
-	up := func(d time.Duration) map[string]int {
+	// which of the four proxies carry data right now (those in [expect] are waited for, the others only probed)
+	up := func(expect []int, d time.Duration) map[string]int {
 		m := map[string]int{}
 		deadline := time.Now().Add(d)
-		for _, n := range names {
-			if cl.WaitProxyRunning(n, time.Until(deadline)) {
-				m[n] = 0
-			}
+		exp := map[int]bool{}
+		for _, i := range expect {
+			exp[i] = true
 		}
 		for i, n := range names {
-			if _, ok := m[n]; ok && echoThrough(addr, rports[i]) {
+			w := 60 * time.Millisecond
+			if exp[i] {
+				w = time.Until(deadline)
+			}
+			if cl.WaitProxyRunning(n, w) && echoThrough(addr, rports[i]) {
 				m[n] = rports[i]
-			} else {
-				delete(m, n)
 			}
 		}
 		return m
 	}
-	first := up(3 * time.Second)
-	if len(first) != len(names) {
+	first := up(before, 3*time.Second)
+	if len(first) != len(before) {
 		s.Close()
-		res.problems = append(res.problems, fmt.Sprintf("initial tunnels: %d of %d usable", len(first), len(names)))
+		res.problems = append(res.problems, fmt.Sprintf("initial tunnels: %d of %d usable", len(first), len(before)))
 		return res
 	}
 	// cut
@@ -731,7 +766,8 @@ func scenOutage(addr string, refusals int) scenResult {
 		return res
 	}
 	f.refuse = true
-	cfgTxt := fmt.Sprintf("[(1, %d); (2, %d); (3, %d)]", rports[0], rports[1], rports[2])
+	cfgTxt := cfgOf(before)
+	failsBeforeReload := -1
 	// wait for the scripted number of refused logins (LoginResp with Error), or for frpc to exit
 	var atts []time.Time
 	exited := false
@@ -746,7 +782,20 @@ func scenOutage(addr string, refusals int) scenResult {
 		if len(atts) > 0 && atts[0].Sub(tCut) > time.Second {
 			atts = append([]time.Time{tCut}, atts...)
 		}
-		if len(atts) >= refusals {
+		// the operator reloads the configuration while the client is in its retry loop (after its first failed attempt)
+		if failsBeforeReload < 0 && len(atts) >= 1 {
+			npcs := []v1.ProxyConfigurer{}
+			for _, i := range after {
+				pc := tcpProxy(names[i], addr, echo.Port(), rports[i])
+				pc.Complete("")
+				npcs = append(npcs, pc)
+			}
+			failsBeforeReload = len(atts)
+			if err := cl.Svc.UpdateAllConfigurer(npcs, nil); err != nil {
+				res.problems = append(res.problems, "reload: "+err.Error())
+			}
+		}
+		if len(atts) >= refusals && failsBeforeReload >= 0 {
 			break
 		}
 		select {
@@ -804,7 +853,7 @@ func scenOutage(addr string, refusals int) scenResult {
 		time.Sleep(10 * time.Millisecond)
 	}
 	tLogin := time.Now()
-	second = up(2 * time.Second)
+	second = up(after, 2*time.Second)
 	tUsable = time.Now()
 	// evaluation
 	res.ok = true
@@ -837,9 +886,16 @@ func scenOutage(addr string, refusals int) scenResult {
 		res.ok = false
 		res.problems = append(res.problems, fmt.Sprintf("%d login attempts in one second / %d attempts in all during an outage scripted for %d", maxPerSec, len(allAtt), refusals))
 	}
-	if len(second) != len(names) {
-		res.ok = false
-		res.problems = append(res.problems, fmt.Sprintf("after the server came back only %d of %d tunnels became usable again", len(second), len(names)))
+	wantSecond := map[string]bool{}
+	for _, i := range after {
+		wantSecond[names[i]] = true
+	}
+	for _, n := range names {
+		_, got := second[n]
+		if got != wantSecond[n] {
+			res.ok = false
+			res.problems = append(res.problems, fmt.Sprintf("after the server came back (configuration reloaded to %v during the outage) proxy %s usable=%v, configured=%v", after, n, got, wantSecond[n]))
+		}
 	}
 	if tUsable.Sub(tRestore) > maxDelay+2*time.Second {
 		res.ok = false
@@ -849,7 +905,11 @@ func scenOutage(addr string, refusals int) scenResult {
 	res.info["attempt_gaps_ms"] = gaps
 	res.info["max_attempts_per_second"] = maxPerSec
 	res.info["usable_ms_after_restore"] = tUsable.Sub(tRestore).Milliseconds()
-	evs := "[RLoginOk; RSessionEnd" + strings.Repeat("; RLoginRefused", len(allAtt)) + "; RLoginOk]"
+	if failsBeforeReload < 0 || failsBeforeReload > len(allAtt) {
+		failsBeforeReload = len(allAtt)
+	}
+	evs := "[RLoginOk; RSessionEnd" + strings.Repeat("; RLoginRefused", failsBeforeReload) + "; RReload " + cfgOf(after) +
+		strings.Repeat("; RLoginRefused", len(allAtt)-failsBeforeReload) + "; RLoginOk]"
 	stillRunning := true
 	select {
 	case <-cl.Done:
@@ -880,7 +940,7 @@ func runLiveness(cfg *runCfg) error {
 		func() scenResult { return scenSilentClient("silent_client", "127.0.14.1", T1, valid1, 0, false, false) },
 		func() scenResult { return scenPingingClient("127.0.14.2", 2, int64(900+r.Intn(600)), 8000) },
 		func() scenResult { return scenSilentClient("invalid_pings", "127.0.14.3", T3, valid3, 400, true, false) },
-		func() scenResult { return scenSilentServer("127.0.14.4", 1, int64(2+r.Intn(2)), answered) },
+		func() scenResult { return scenSilentServer("silent_server", "127.0.14.4", 1, int64(2+r.Intn(2)), answered, false) },
 		func() scenResult { return scenPongError("127.0.14.5", 1, 3) },
 		func() scenResult { return scenOutage("127.0.14.6", 2) },
 		// multiplexing on, heartbeat timeout set explicitly: the same rule applies
@@ -890,7 +950,11 @@ func runLiveness(cfg *runCfg) error {
 	every := int64(900 + r.Intn(600))
 	Tss := int64(2 + r.Intn(2))
 	scens[1] = func() scenResult { return scenPingingClient("127.0.14.2", 2, every, 8000) }
-	scens[3] = func() scenResult { return scenSilentServer("127.0.14.4", 1, Tss, answered) }
+	scens[3] = func() scenResult { return scenSilentServer("silent_server", "127.0.14.4", 1, Tss, answered, false) }
+	// the server sends LoginResp and then nothing at all, not even a first Pong (tcpMux off and on)
+	scens = append(scens,
+		func() scenResult { return scenSilentServer("silent_from_start", "127.0.14.8", 1, 2, 0, false) },
+		func() scenResult { return scenSilentServer("silent_from_start_mux", "127.0.14.9", 1, 2, 0, true) })
 
 	results := make([]scenResult, len(scens))
 	runs := make([]int, len(scens))
